@@ -280,5 +280,21 @@ pub fn det_corpus() -> Vec<Spec> {
         ],
         ..Default::default()
     });
+    // the same component names as the document above with other shapes (Status an enumeration, Meta holding it): a generation
+    // that remembers anything about an earlier document of the same process answers differently here
+    v.push(Spec {
+        components: vec![
+            ("Status".into(), s_enum(&["open", "closed"])),
+            ("Pet".into(), s_enum(&["cat", "dog"])),
+            ("Meta".into(), s_obj(vec![("status", rf("Status")), ("pet", rf("Pet")), ("n", inl(s_int()))], &["status", "pet"])),
+            ("Bag".into(), s_obj(vec![("meta", rf("Meta")), ("order", rf("Order"))], &["meta"])),
+            ("Order".into(), s_obj(vec![("id", inl(s_string()))], &[])),
+        ],
+        paths: vec![
+            item("/y", vec![op("get", Some("getBag"), vec![(200, Some(rf("Bag")))])]),
+            item("/b", vec![op("put", Some("stat"), vec![(200, Some(rf("Status")))])]),
+        ],
+        ..Default::default()
+    });
     v
 }
